@@ -201,12 +201,37 @@ def run_history_case(case):
         out.append(('solve', 'same as twin', 'differs', 'solution differs from the canonical twin'))
         return out
     out += check_export(m, twin, amap, pref, case.get('export_options', not hist and len(pref) <= 1))
+    if not hist and not out and len(pref) == 1 and resolve(amap, pref[0]) in VARS and pref[0] in amap and len([a for a in amap if resolve(amap, a) == resolve(amap, pref[0])]) >= 2:
+        # (a variable with SEVERAL aliases, one of them preferred) a second preferred name for the same variable, added on the instance after construction (the canonical name, or another
+        # alias of it), makes the preference ambiguous: the aliased export must refuse it as it does for a class-level declaration
+        c0 = resolve(amap, pref[0])
+        for extra_name in [c0] + [a for a in amap if a != pref[0] and resolve(amap, a) == c0][:1]:
+            if extra_name == pref[0]:
+                continue
+            inst = cls(list(span), strict=strict, **dict(INIT))
+            inst.preferred_names.append(extra_name)
+            try:
+                inst.to_dataframe(use_aliases=True)
+                out.append(('export:ambiguous-accepted:instance-level', 'ValueError', [pref[0], extra_name], 'two preferred names for %s (the second added on the instance) must be rejected by the aliased export' % c0))
+            except ValueError:
+                pass
+            finally:
+                if list(cls.PREFERRED_NAMES) != list(pref):
+                    cls.PREFERRED_NAMES[:] = list(pref)
     if not hist and not out:
         # a preference added to ONE instance is that instance's: the class declaration and later instances keep the declared list
         declared = list(pref)
         try:
             m.preferred_names.append('late_preference')
+            probe_before = hasattr(m, 'late_alias')     # a failed look-up first: nothing may be remembered from it
             m.aliases['late_alias'] = VARS[0]
+            if probe_before or canon(np.asarray(m.late_alias)) != canon(np.asarray(m[VARS[0]])) or canon(np.asarray(m['late_alias', LAB[sp][0]])) != canon(np.asarray(m[VARS[0], LAB[sp][0]])):
+                out.append(('instance-alias:read', 'the series of %s' % VARS[0], 'differs', 'an alias added to one instance (after a failed look-up of that name) does not read its variable'))
+            elif not strict:
+                keys_before = set(vars(m))
+                m.late_alias = 7.25
+                if set(vars(m)) != keys_before or not np.all(np.asarray(m[VARS[0]]) == 7.25):
+                    out.append(('instance-alias:write', 'written through to %s, no new storage' % VARS[0], sorted(set(vars(m)) - keys_before), 'a write through an alias added to one instance created storage or missed the variable'))
             later = cls(list(span), strict=strict, **dict(INIT))
             if list(cls.PREFERRED_NAMES) != declared or list(later.preferred_names) != declared or 'late_alias' in later.aliases or 'late_alias' in cls.ALIASES:
                 out.append(('class-declaration-changed', declared, [list(cls.PREFERRED_NAMES), list(later.preferred_names), sorted(later.aliases)],
@@ -400,6 +425,20 @@ def run_special_targets_case(case):
                          for a, c in (('st', 'status'), ('it', 'iterations'), ('late', 'Wlate'), ('later', 'Wlate')))
     except Exception as e:
         return [('special-targets:access:%s' % type(e).__name__, 'as the variable', repr(e)[:160], 'access through an alias of status / iterations / a later variable failed')]
+    try:
+        cls2 = type('AliasedInternal', (AliasMixin, _BASE), {'ALIASES': {'adj': '_U', 'st': 'status', 'gdp': 'Y'}})
+        m2 = cls2(list(SPAN), **INIT)
+        m2.add_variable('_U', 1.0)
+        t2 = _BASE(list(SPAN), **INIT)
+        t2.add_variable('_U', 1.0)
+        for opt in ({}, {'status': False}, {'include_internal': True}, {'status': False, 'iterations': False, 'include_internal': True}):
+            df, base = m2.to_dataframe(use_aliases=True, **opt), t2.to_dataframe(**opt)
+            renamed = [{'_U': 'adj', 'status': 'st', 'Y': 'gdp'}.get(c, c) for c in base.columns]
+            if list(df.columns) != renamed or any(canon(df.iloc[:, j].values) != canon(base.iloc[:, j].values) for j in range(len(renamed))):
+                out.append(('special-targets:export', renamed, list(df.columns), 'aliased export with %r (aliases of an internal variable and of status)' % (opt,)))
+                break
+    except Exception as e:
+        out.append(('special-targets:export:%s' % type(e).__name__, 'exports', repr(e)[:160], 'aliased export of a model whose aliases name an internal variable / a column that is left out'))
     if state(m) != state(twin) or not same_reads:
         out.append(('special-targets:effect', 'same as on the variable', 'differs', 'an alias of status / iterations / a later variable does not behave like it'))
     return out
